@@ -44,7 +44,7 @@ DEADLINE = {"quick": 100, "thorough": 1500}
 MIN_DECIDING = {"quick": 100, "thorough": 1500}
 PER_FAMILY = {"quick": 13, "thorough": 500}
 N_SYM = {"quick": 25, "thorough": 200}
-N_TRANSFORM = {"quick": 31, "thorough": 248}
+N_TRANSFORM = {"quick": 38, "thorough": 380}
 
 TOL_TRANSFORM = mp.mpf(10) ** -25
 TOL_TRUNC = mp.mpf(10) ** -12
@@ -254,6 +254,10 @@ class Ctx:
         self.rows = []
         self.nontrivial = False
         self.t0 = time.time()
+        self.limit = 40
+
+    def elapsed(self):
+        return time.time() - self.t0
 
     def ev(self, name, n=1):
         self.events[name] = self.events.get(name, 0) + n
@@ -320,14 +324,19 @@ def moment_key(law, k, polar_val, ref, params_sym=None):
 
 
 # ---------------------------------------------------------------------------------------------- checks on one distribution object
-def check_moments(ctx, dist, law, ks, label=""):
+def check_moments(ctx, dist, law, ks, budget, label=""):
     fam = law[0]
     for k in ks:
+        if ctx.elapsed() > 0.45 * ctx.limit:
+            ctx.skip("get_moment-case-budget-exhausted")
+            break
         try:
-            m = dist.get_moment(k)
+            with soft_limit(budget):
+                m = dist.get_moment(k)
             ctx.ev("get_moment")
         except SoftTimeout:
-            raise
+            ctx.skip("get_moment-soft-timeout")
+            break
         except Exception as e:
             ctx.refuse(e)
             continue
@@ -413,7 +422,9 @@ def check_support(ctx, dist, law, subs=None):
 
     def inside_point(v):
         sv = sym_rational(v)
-        if any(sympy.simplify(p - sv) == 0 for p in points):
+        if any(p == sv for p in points):
+            return True
+        if any((not p.is_Rational) and sympy.simplify(p - sv) == 0 for p in points):
             return True
         return any(bool(lo <= sv) and bool(sv <= hi) for lo, hi in intervals)
 
@@ -643,7 +654,8 @@ def run_law(case, tier):
     except Exception as e:
         ctx.refuse(e)
         return ctx.result(sample)
-    check_moments(ctx, dist, law, case["ks"])
+    ctx.limit = TIMEOUT[tier]
+    check_moments(ctx, dist, law, case["ks"], budget)
     check_support(ctx, dist, law)
     check_discrete(ctx, dist, law)
     cf_ts = [G.dec(t) for t in case["cf_ts"]]
@@ -660,7 +672,9 @@ def run_law(case, tier):
         check_transform_values(ctx, dist, law, "cf", cf_ts, budget)
         check_transform_values(ctx, dist, law, "mgf", mgf_ts, budget)
     check_mgf_exists(ctx, dist, law, [G.dec(t) for t in case["exist_ts"]])
-    if not slow:
+    if ctx.elapsed() > 0.6 * ctx.limit:
+        ctx.skip("derivatives-case-budget-exhausted")
+    elif not slow:
         te = check_derivatives(ctx, dist, law, "cf", 3, budget)
         nz = [t for t in cf_ts if t != 0]
         if nz:
